@@ -16,6 +16,20 @@ NARWHALS = "formulaic.materializers.narwhals.NarwhalsMaterializer"
 DELEGATE_ATTRS = {"get_model_matrix", "_build_model_matrix"}
 
 
+def relabel(ctx, rule: str, *fns):
+    """Run rule functions of another property module and file their obligations under ``rule`` (a mechanism that is an anchor of
+    both properties is a necessary condition of both)."""
+    saved = ctx.obligations
+    ctx.obligations = []
+    try:
+        for fn in fns:
+            fn(ctx)
+        for o in ctx.obligations:
+            o.rule = rule
+    finally:
+        ctx.obligations = saved + ctx.obligations
+
+
 def entry_points(project: Project) -> List[FunctionInfo]:
     """Every function of the package through which a caller asks for a model matrix: all defs named
     ``get_model_matrix`` / ``model_matrix`` that are not abstract stubs.  Discovered, with the
